@@ -43,10 +43,11 @@ class LoopSpec:
     ``local_types``: types of locals first assigned inside the loop.
     """
 
-    def __init__(self, anchor: str, inv, modifies=(), local_types=None, decreases=None):
+    def __init__(self, anchor: str, inv, modifies=(), local_types=None, decreases=None, lemmas=None):
         self.anchor, self.inv, self.modifies = anchor, inv, tuple(modifies)
         self.local_types = local_types or {}
-        self.decreases = decreases
+        self.decreases = decreases  # (c, k) -> integer measure: >= 0 and strictly decreasing over an iteration (checked)
+        self.lemmas = lemmas  # c -> [(label, formula)]: cited mathematical lemmas assumed when the loop is left (listed as assumptions)
 
 
 class Contract:
@@ -82,6 +83,8 @@ class Contract:
 
 def register(cls):
     inst = cls()
+    if getattr(cls, "lemma", False):
+        _registry[f"lemma:{cls.__module__}.{cls.__name__}"] = inst
     for t in cls.targets:
         key = t + ("#setter" if cls.setter else "")
         _registry[key] = inst
